@@ -559,15 +559,66 @@ let comp (rest : string) : string =
     | Bytes.Err _ -> "err"
     | Bytes.Panic -> "PANIC"
     | Bytes.OutOfFuel -> "OUTOFFUEL" in
+  let code_i = int_of_n s.Composite.s_code in
+  let via (bs : coq_N list) : string =
+    let tbl = if code_i >= 16 && code_i <= 24 then Some CompositeSpec.performative_schemas
+      else if (code_i >= 35 && code_i <= 39) || code_i = 51 || code_i = 52 then Some CompositeSpec.delivery_state_schemas
+      else None in
+    match tbl with
+    | None -> "-"
+    | Some t ->
+      (match Composite.dec_via_enum (nat_of_int (Stdlib.List.length bs + 1)) t bs with
+       | Bytes.Ok ((sv, fvs), _) -> str_n sv.Composite.s_code ^ ":" ^ show_fields fvs
+       | Bytes.Err _ -> "err"
+       | Bytes.Panic -> "PANIC"
+       | Bytes.OutOfFuel -> "OUTOFFUEL") in
   let rec last2 = function [a; b] -> (a, b) | _ :: r -> last2 r | _ -> failwith "comp: form" in
   let (form, hx) = last2 ws in
   match form with
   | "canon" ->
       (match Composite.enc_composite Enc.Plain s vs with
+       | Some b -> "enc=" ^ hexs b ^ " dec=" ^ dec b ^ " enum=" ^ via b
+       | None -> "enc=ERR")
+  | "var" -> let bs = bytes_of_hex hx in "dec=" ^ dec bs ^ " enum=" ^ via bs
+  | _ -> failwith "comp: unknown form"
+
+(* ---------- fdec: the AMQP frame codec (C06, C15, C04) ---------- *)
+let fdec (rest : string) : string =
+  let ws = words rest in
+  let split_c s = if s = "-" then [] else Stdlib.String.split_on_char ',' s in
+  let hexs (b : coq_N list) : string = Stdlib.String.concat "" (Stdlib.List.map (fun x -> Printf.sprintf "%02x" (int_of_n x)) b) in
+  let hexd b = if b = [] then "-" else hexs b in
+  let value_of_hex (h : string) : Value.value =
+    let bs = bytes_of_hex h in
+    match Dec.from_slice (nat_of_int (Stdlib.List.length bs + 1)) bs with
+    | Bytes.Ok (v, []) -> v
+    | _ -> failwith ("fdec: field does not decode in the model: " ^ h) in
+  let show_fields (fvs : Value.value list) : string =
+    if fvs = [] then "-" else
+    Stdlib.String.concat "," (Stdlib.List.map (fun v -> match Enc.enc_bytes v with Some b -> hexs b | None -> "ENCERR") fvs) in
+  let dec (bs : coq_N list) : string =
+    match AmqpFrame.dec_frame (nat_of_int (Stdlib.List.length bs + 1)) bs with
+    | Bytes.Ok f ->
+        (match f.AmqpFrame.f_body with
+         | AmqpFrame.FEmpty -> "ok ch=" ^ str_n f.AmqpFrame.f_channel ^ " empty"
+         | AmqpFrame.FPerf (s, vs, payload) ->
+             "ok ch=" ^ str_n f.AmqpFrame.f_channel ^ " code=" ^ str_n s.Composite.s_code ^ " fields=" ^ show_fields vs ^ " payload=" ^ hexd payload)
+    | Bytes.Err _ -> "err"
+    | Bytes.Panic -> "PANIC"
+    | Bytes.OutOfFuel -> "OUTOFFUEL" in
+  match ws with
+  | "dec" :: hx :: _ -> dec (bytes_of_hex hx)
+  | "dec" :: [] -> dec []
+  | "enc" :: _ ->
+      let code = n_of_string (kv ws "code") in
+      let s = match Composite.dispatch CompositeSpec.performative_schemas (Value.DCode code) with
+        | Some s -> s | None -> failwith "fdec: not a performative" in
+      let vs = Stdlib.List.map value_of_hex (split_c (kv ws "fields")) in
+      let f = { AmqpFrame.f_channel = n_of_string (kv ws "ch"); AmqpFrame.f_body = AmqpFrame.FPerf (s, vs, bytes_of_hex (kv ws "payload")) } in
+      (match AmqpFrame.enc_frame f with
        | Some b -> "enc=" ^ hexs b ^ " dec=" ^ dec b
        | None -> "enc=ERR")
-  | "var" -> "dec=" ^ dec (bytes_of_hex hx)
-  | _ -> failwith "comp: unknown form"
+  | _ -> failwith "fdec: form"
 
 (* ---------- lifem: session lifecycle (C13) ---------- *)
 let lifem (rest : string) : string =
@@ -939,6 +990,7 @@ let dispatch (line : string) : string =
        | "other" -> frame_other rest
        | "ldf" -> frame_ldf rest
        | "comp" -> comp rest
+       | "fdec" -> fdec rest
        | "enc" -> codec_enc rest
        | "dec" -> codec_dec rest
        | "spec" -> codec_spec rest
